@@ -14,7 +14,21 @@ func main() {
 	if err != nil {
 		panic(err)
 	}
-	o := h.Run(string(b), h.Opts{EvalTicks: 1000000, MaxDepth: 5000})
+	// further arguments: module files "name=path" (importable as 导入“name”)
+	mods := map[string]string{}
+	for _, a := range os.Args[2:] {
+		for i := 0; i < len(a); i++ {
+			if a[i] == '=' {
+				mb, err := os.ReadFile(a[i+1:])
+				if err != nil {
+					panic(err)
+				}
+				mods[a[:i]] = string(mb)
+				break
+			}
+		}
+	}
+	o := h.Run(string(b), h.Opts{EvalTicks: 1000000, MaxDepth: 5000, Modules: mods})
 	for _, l := range o.Trace {
 		fmt.Println("| " + l)
 	}
